@@ -131,6 +131,40 @@ def gen_thrown():
         yield "caught"
 
 
+import dataclasses
+
+
+@dataclasses.dataclass
+class Point:
+    x: int
+
+
+@dataclasses.dataclass
+class Label:
+    text: str
+
+
+def bare(f):
+    def shim(*a, **k):
+        return f(*a, **k)
+    shim.__wrapped__ = f
+    return shim
+
+
+@bare
+def render(n):
+    return "r" * n
+
+
+def scn_generated_inits():
+    Point(1)
+    Label("origin")
+
+
+def scn_bare_wrapper():
+    render(2)
+
+
 # ---------------------------------------------------------------- scenarios
 def scn_returns():
     ret_const(); ret_implicit(); ret_value(1); ret_value("s", b=None); try_finally({"a": 1})
@@ -215,6 +249,9 @@ EXPECT = {
     "scn_generators": [T("gen_simple", {"n": int}, NoneType, int), T("gen_ret", {"n": int}, float, Union[str, None]),
                        T("gen_mixed", {}, NoneType, Union[int, str]), T("gen_simple", {"n": int}, NoneType, int)],
     "scn_coroutine": [T("co_inner", {"x": int}, int), T("co_outer", {"x": int}, int)],
+    "scn_generated_inits": [T("Point.__init__", {"self": "Point", "x": int}, NoneType), T("Label.__init__", {"self": "Label", "text": str}, NoneType)],
+    # the shim itself is not resolvable by name (bound as `render`, named `shim`): only the wrapped function is logged
+    "scn_bare_wrapper": [T("render", {"n": int}, str)],
     # known findings: what a faithful tracer would log
     "scn_trace_types_name": [T("trace_types", {"a": int}, int)],
     "scn_gen_closed": [T("gen_closed", {}, ABSENT, int)],
